@@ -153,6 +153,14 @@ fn spellings(v: &Value, max_tokens: usize) -> Vec<(String, String)> {
         out.push((name.to_string(), s));
     }
     out.push(("pretty".into(), serde_json::to_string_pretty(v).unwrap()));
+    // data after a complete document: trailing whitespace is fine, anything else must be
+    // judged the same way on every channel
+    let compact = out[0].1.clone();
+    out.push(("trailing-whitespace".into(), format!("{compact} \n\t")));
+    out.push(("trailing-brace".into(), format!("{compact}}}")));
+    out.push(("trailing-second-document".into(), format!("{compact}{compact}")));
+    out.push(("trailing-garbage-after-newline".into(), format!("{compact}\nx")));
+    out.push(("leading-whitespace".into(), format!("\n {compact}")));
     let n = count_strings(v);
     let stride = n.div_ceil(max_tokens.max(1)).max(1);
     for k in (0..n).step_by(stride) {
@@ -178,6 +186,16 @@ fn check<T: DeserializeOwned + PartialEq>(acc: &mut Acc, typ: &str, name: &str, 
         acc.accepting += 1;
     }
     for (sname, text) in &sp {
+        // a spelling of the same document is compared with the compact baseline; a text with
+        // data after the document is a different input, compared with what from_str says about it
+        let different_input = sname.starts_with("trailing-") && sname != "trailing-whitespace";
+        let own_base: Option<T>;
+        let base: &Option<T> = if different_input {
+            own_base = decode::<T>("from_str", text).ok().flatten();
+            &own_base
+        } else {
+            &base
+        };
         for ch in CHANNELS {
             acc.evaluations += 1;
             let got = match decode::<T>(ch, text) {
@@ -187,15 +205,21 @@ fn check<T: DeserializeOwned + PartialEq>(acc: &mut Acc, typ: &str, name: &str, 
                     continue;
                 }
             };
-            if got != base {
-                let sclass = if sname.starts_with("token-") { "one-string-escaped" } else { sname.as_str() };
-                let what = match (&base, &got) {
+            if &got != base {
+                let sclass = if sname.starts_with("token-") {
+                    "one-string-escaped"
+                } else if sname.starts_with("trailing-") {
+                    "trailing-data"
+                } else {
+                    sname.as_str()
+                };
+                let what = match (base, &got) {
                     (Some(_), None) => "accepted from compact text via from_str but rejected here",
                     (None, Some(_)) => "rejected from compact text via from_str but accepted here",
                     _ => "decodes to a different value",
                 };
                 // attribute to the channel when the compact spelling already differs there
-                let compact_differs = decode::<T>(ch, &sp[0].1).ok().map(|g| g != base).unwrap_or(true);
+                let compact_differs = !different_input && decode::<T>(ch, &sp[0].1).ok().map(|g| &g != base).unwrap_or(true);
                 let key = if compact_differs { format!("channel-dependent:{typ}:{ch}") } else { format!("spelling-dependent:{typ}:{sclass}") };
                 acc.violation(&key, &format!("{typ}: {what} (channel {ch}, spelling {sname})"), || json!({"type": typ, "document": name, "channel": ch, "spelling": sname, "text": text, "compact": sp[0].1}));
             }
